@@ -1,8 +1,109 @@
-/- line-protocol handlers for the C16 models (stub: nothing modelled yet) -/
-import FontVerif.Model.Base
+/- line-protocol handlers for the C16 models (Model/Layout.lean) -/
+import FontVerif.Model.Layout
 namespace FontVerif.Drv.C16
-open FontVerif
+open FontVerif FontVerif.Layout
 
-def handle (_cmd : String) (_args : List String) : Option String := none
+/-- split an argument list at `|` tokens -/
+def splitBar (args : List String) : List (List String) :=
+  let rec go : List String → List String → List (List String) → List (List String)
+    | [], cur, acc => (cur.reverse :: acc).reverse
+    | a :: rest, cur, acc => if a = "|" then go rest [] (cur.reverse :: acc) else go rest (a :: cur) acc
+  go args [] []
+
+def nats? (ss : List String) : Option (List Nat) :=
+  parseNats? (ss.filter (· ≠ "-"))
+
+def triples : List Nat → Option (List (Nat × Nat × Nat))
+  | [] => some []
+  | a :: b :: c :: rest => (triples rest).map ((a, b, c) :: ·)
+  | _ => none
+
+def pairs : List Nat → Option (List (Nat × Nat))
+  | [] => some []
+  | a :: b :: rest => (pairs rest).map ((a, b) :: ·)
+  | _ => none
+
+def parseCoverage? (xs : List Nat) : Option Coverage :=
+  match xs with
+  | 1 :: gs => some (.fmt1 gs)
+  | 2 :: rest => (triples rest).map (fun ts => .fmt2 (ts.map (fun t => ⟨t.1, t.2.1, t.2.2⟩)))
+  | _ => none
+
+def showCoverage : Coverage → String
+  | .fmt1 gs => "1 " ++ joinNats gs
+  | .fmt2 rs => "2 " ++ joinNats (rs.flatMap (fun r => [r.start, r.end_, r.startCov]))
+
+def parseClassDef? (xs : List Nat) : Option ClassDef :=
+  match xs with
+  | 1 :: s :: cs => some (.fmt1 s cs)
+  | 2 :: rest => (triples rest).map (fun ts => .fmt2 (ts.map (fun t => ⟨t.1, t.2.1, t.2.2⟩)))
+  | _ => none
+
+def showClassDef : ClassDef → String
+  | .fmt1 s cs => "1 " ++ toString s ++ " " ++ joinNats cs
+  | .fmt2 rs => "2 " ++ joinNats (rs.flatMap (fun r => [r.start, r.end_, r.cls]))
+
+def showOpt : Option Nat → String
+  | none => "n"
+  | some i => toString i
+
+def showGets (c : Coverage) (probes : List Nat) : String :=
+  if probes.isEmpty then "-" else " ".intercalate (probes.map (fun g => showOpt (c.get g)))
+
+def showClasses (c : ClassDef) (probes : List Nat) : String :=
+  joinNats (probes.map c.get)
+
+def addAll (b : ClassDefBuilder) : List (List Nat) → ClassDefBuilder × List Bool
+  | [] => (b, [])
+  | c :: cs =>
+    let (b', ok) := b.checkedAdd c
+    let (b'', oks) := addAll b' cs
+    (b'', ok :: oks)
+
+def handle (cmd : String) (args : List String) : Option String :=
+  match cmd, (splitBar args).mapM nats? with
+  | _, none => none
+  | "cov.build", some [gs, probes] =>
+    let c := buildCoverage gs
+    some (showCoverage c ++ " | " ++ showGets c probes)
+  | "cov.ranges", some [gs] =>
+    some (joinNats ((iterForGlyphs gs).flatMap (fun r => [r.start, r.end_, r.startCov])))
+  | "cov.get", some [tbl, probes] =>
+    (parseCoverage? tbl).map (fun c => showGets c probes)
+  | "cov.iter", some [tbl] =>
+    (parseCoverage? tbl).map (fun c => joinNats c.glyphs)
+  | "cov.split", some [tbl, [s, e], probes] =>
+    (parseCoverage? tbl).map (fun c =>
+      match splitCoverage c s e with
+      | none => "trap"
+      | some c' => showCoverage c' ++ " | " ++ showGets c' probes)
+  | "cd.build", some [ps, probes] =>
+    (pairs ps).map (fun ps =>
+      let c := buildClassDef ps
+      showClassDef c ++ " | " ++ showClasses c probes)
+  | "cd.get", some [tbl, probes] =>
+    (parseClassDef? tbl).map (fun c => showClasses c probes)
+  | "cdb.build", some ([use0] :: probes :: classes) =>
+    if use0 > 1 then none else
+    let classes := classes.map sortDedup
+    let (b, oks) := addAll ⟨[], use0 == 1⟩ classes
+    let (cd, mapping) := b.buildWithMapping
+    let ids := classes.map (fun c => match mapping.find? (fun p => p.1 == c) with
+      | some p => toString p.2 | none => "x")
+    some (" ".intercalate (oks.map (fun b => if b then "t" else "f")) ++ " | " ++
+      " ".intercalate ids ++ " | " ++ showClassDef cd ++ " | " ++ showClasses cd probes)
+  | "ppf1.points", some [[covSize], ps] =>
+    (pairs ps).map (fun ps => match ppf1SplitPoints covSize ps with
+      | none => "none"
+      | some pts => joinNats pts)
+  | "ppf1.split", some [tbl, pts] =>
+    -- pair sets carry their own index as value so that slices are observable
+    (parseCoverage? tbl).map (fun c =>
+      let t : PairPos1 Nat := ⟨c, (List.range c.glyphs.length).map (fun i => [(0, i)])⟩
+      match splitPpf1Go t 0 pts with
+      | none => "trap"
+      | some ts => " | ".intercalate (ts.map (fun t =>
+          showCoverage t.cov ++ " ; " ++ joinNats (t.pairSets.map (fun ps => (ps.head?.map (·.2)).getD 0)))))
+  | _, _ => none
 
 end FontVerif.Drv.C16
